@@ -4,10 +4,12 @@ package main
 
 import (
 	"fmt"
-	"regexp"
 	"go/token"
 	"go/types"
+	"os"
+	"regexp"
 	"sort"
+	"strconv"
 	"strings"
 
 	"golang.org/x/tools/go/ssa"
@@ -16,18 +18,18 @@ import (
 // Val is a symbolic value. SMT-level values have S set. Pointers that cannot
 // be represented as one Int address (locals, interior field pointers) have P.
 type Val struct {
-	T    types.Type
-	S    string
-	P    *Ptr
-	Tup  []*Val
-	Fn   *ssa.Function
-	Bind []*Val
-	Rng  *rangeState
-	Srt  string     // explicit SMT sort (ghost values without a Go type)
+	T       types.Type
+	S       string
+	P       *Ptr
+	Tup     []*Val
+	Fn      *ssa.Function
+	Bind    []*Val
+	Rng     *rangeState
+	Srt     string // explicit SMT sort (ghost values without a Go type)
 	ElemT   types.Type
 	ElemSrt string
-	KLen int        // statically known slice length (0 = unknown)
-	absName string  // quantifier variable re-expressed as absolute address
+	KLen    int    // statically known slice length (0 = unknown)
+	absName string // quantifier variable re-expressed as absolute address
 	absBase string
 }
 
@@ -103,41 +105,69 @@ type Obligation struct {
 	Src    string // clause source / operand text
 	vc     *VC
 	// result
-	Status  string // proved | failed | unknown
-	Solver  string
-	Time    float64
-	Output  string
-	Model   string
-	Except  string
-	Bounded bool
+	Status    string // proved | failed | unknown
+	Solver    string
+	Time      float64
+	Output    string
+	Model     string
+	Except    string
+	Bounded   bool
 	ExpectSat bool
+	Blk       int // block of the function under proof the obligation arises in (-1: none)
 }
 
 // VC accumulates the facts and obligations generated for one function.
 type VC struct {
-	u       *Universe
-	eng     *Engine
-	fnName  string
-	globals []string // declarations and axioms visible to every obligation
-	alloc0  string
-	facts   []string
-	obls    []*Obligation
-	nfresh  int
-	ncell   int
-	props   []string
-	assumed map[string]bool // assumed contracts used
-	inlined map[string]bool
-	uncontr map[string]bool
-	unsupp  int
-	getvals []string // terms to query in models
-	pureSeen map[string]bool
-	implSeen map[string]bool
+	u             *Universe
+	eng           *Engine
+	fnName        string
+	globals       []string // declarations and axioms visible to every obligation
+	alloc0        string
+	facts         []string
+	obls          []*Obligation
+	nfresh        int
+	ncell         int
+	props         []string
+	assumed       map[string]bool // assumed contracts used
+	inlined       map[string]bool
+	uncontr       map[string]bool
+	unsupp        int
+	getvals       []string // terms to query in models
+	pureSeen      map[string]bool
+	implSeen      map[string]bool
 	verifyingBody bool
-	absQuant bool // quantifiers over slice indices are rewritten to absolute addresses
-	jsonAx   bool
-	nlet     int
-	tnameAx  bool
-	params   []*Val // entry values of the parameters (for replay)
+	absQuant      bool // quantifiers over slice indices are rewritten to absolute addresses
+	jsonAx        bool
+	nlet          int
+	tnameAx       bool
+	params        []*Val // entry values of the parameters (for replay)
+	// control-flow provenance of facts: marks[i] says that facts from index
+	// marks[i].from on were emitted while executing block marks[i].blk of the
+	// function under proof (-1: outside any block)
+	marks  []blkMark
+	curBlk int
+	anc    map[int]map[int]bool // block → blocks with a forward path to it (itself included)
+}
+
+type blkMark struct{ from, blk int }
+
+func (vc *VC) enterBlk(b int) {
+	vc.curBlk = b
+	vc.marks = append(vc.marks, blkMark{len(vc.facts), b})
+}
+
+// blockOfFacts returns, for each of the first n facts, the block it was emitted in.
+func (vc *VC) blockOfFacts(n int) []int {
+	out := make([]int, n)
+	cur, k := -1, 0
+	for i := 0; i < n; i++ {
+		for k < len(vc.marks) && vc.marks[k].from <= i {
+			cur = vc.marks[k].blk
+			k++
+		}
+		out[i] = cur
+	}
+	return out
 }
 
 func (vc *VC) fresh(prefix, sort string) string {
@@ -198,7 +228,7 @@ func (vc *VC) newCell(name string, t types.Type) *Cell {
 
 func (vc *VC) oblige(st *State, kind, name, goal string, pos token.Position, src string) *Obligation {
 	o := &Obligation{Name: vc.fnName + "/" + kind + "/" + name, Kind: kind, Func: vc.fnName,
-		Prefix: len(vc.facts), Hyp: st.reach, Goal: goal, Pos: pos, Props: vc.props, Src: src, vc: vc}
+		Prefix: len(vc.facts), Hyp: st.reach, Goal: goal, Pos: pos, Props: vc.props, Src: src, vc: vc, Blk: vc.curBlk}
 	// duplicate names get an ordinal
 	cnt := 0
 	for _, p := range vc.obls {
@@ -221,35 +251,93 @@ func (vc *VC) unsupported(st *State, what string, pos token.Position) {
 // query renders the SMT-LIB text of an obligation.
 func (o *Obligation) query(withModel bool) string { return o.queryMode(withModel, false) }
 
+// queryNoQuant: the full relevant context minus every quantified fact.
+func (o *Obligation) queryNoQuant() string {
+	q := o.queryMode(false, false)
+	var b strings.Builder
+	for _, l := range strings.Split(q, "\n") {
+		if strings.HasPrefix(l, "(assert") && strings.Contains(l, "(forall") && !strings.HasPrefix(l, "(assert (not ") {
+			continue
+		}
+		b.WriteString(l)
+		b.WriteByte('\n')
+	}
+	return b.String()
+}
+
 // queryMode: with tight set, only the definitions the goal depends on and the
 // assumptions that speak about nothing else are included (no quantified
 // background axioms). A proof from fewer hypotheses is still a proof; a failure
 // in tight mode decides nothing and the full query is tried next.
 func (o *Obligation) queryMode(withModel, tight bool) string {
+	return o.queryModeB(withModel, tight, os.Getenv("GOVC_NOBLK") == "")
+}
+
+// queryModeB: byBlock switches on the heuristic prunings (control-flow
+// provenance, heap-version-directed relevance, string-length bounds); without
+// it only the symbol-connectivity pruning remains. With byBlock set, assumptions emitted in blocks that have no
+// forward path to the obligation's block are left out (a loop body says
+// nothing about the code after the loop: the state there is the havocked loop
+// head). Sound like every other pruning: fewer hypotheses.
+func (o *Obligation) queryModeB(withModel, tight, byBlock bool) string {
 	vc := o.vc
 	var b strings.Builder
 	b.WriteString("; " + o.Name + "\n(set-logic ALL)\n")
 	b.WriteString(vc.u.prelude())
-	for _, a := range vc.u.axioms {
-		b.WriteString("(assert " + a.smt + ")\n")
-	}
+	var body strings.Builder
 	for _, f := range vc.globals {
 		if tight && strings.Contains(f, "(forall") {
 			continue
 		}
-		b.WriteString(f)
-		b.WriteByte('\n')
+		if byBlock && !strings.Contains(o.Hyp+o.Goal, "str.len") && strings.Contains(f, "(forall") {
+			f = stripStrLenBounds(f)
+		}
+		body.WriteString(f)
+		body.WriteByte('\n')
 	}
-	facts := relevantFacts(vc.facts[:o.Prefix], o.Hyp+" "+o.Goal)
+	all := vc.facts[:o.Prefix]
+	if byBlock && o.Blk != -1 && vc.anc != nil && vc.anc[o.Blk] != nil {
+		anc := vc.anc[o.Blk]
+		blk := vc.blockOfFacts(o.Prefix)
+		kept := make([]string, 0, len(all))
+		for i, f := range all {
+			if blk[i] != -1 && !anc[blk[i]] && strings.HasPrefix(f, "(assert") && strings.Contains(f, "!") {
+				if os.Getenv("GOVC_DEBUG_BLK") == o.Name {
+					fmt.Fprintf(os.Stderr, "DROP b%d %.200s\n", blk[i], f)
+				}
+				continue
+			}
+			kept = append(kept, f)
+		}
+		all = kept
+		if os.Getenv("GOVC_DEBUG_BLK") != "" && !tight {
+			cnt := map[int]int{}
+			for i := range blk {
+				cnt[blk[i]]++
+			}
+			fmt.Fprintf(os.Stderr, "BLK %s blk=%d anc=%v facts-per-block=%v kept=%d of %d\n", o.Name, o.Blk, anc, cnt, len(kept), o.Prefix)
+		}
+	}
+	facts := relevantFacts(all, o.Hyp+" "+o.Goal, byBlock)
 	if tight {
-		facts = tightFacts(vc.facts[:o.Prefix], o.Hyp+" "+o.Goal)
+		facts = tightFacts(all, o.Hyp+" "+o.Goal)
 	}
+	stripLen := byBlock && !strings.Contains(o.Hyp+o.Goal, "str.len")
 	for _, f := range facts {
-		b.WriteString(f)
-		b.WriteByte('\n')
+		if stripLen && strings.Contains(f, "(forall") {
+			f = stripStrLenBounds(f)
+		}
+		body.WriteString(f)
+		body.WriteByte('\n')
 	}
-	b.WriteString("(assert " + o.Hyp + ")\n")
-	b.WriteString("(assert (not " + o.Goal + "))\n")
+	body.WriteString("(assert " + o.Hyp + ")\n")
+	body.WriteString("(assert (not " + o.Goal + "))\n")
+	var user []string
+	for _, a := range vc.u.axioms {
+		user = append(user, "(assert "+a.smt+")")
+	}
+	b.WriteString(vc.u.condAxioms(body.String(), user))
+	b.WriteString(body.String())
 	b.WriteString("(check-sat)\n")
 	if withModel {
 		b.WriteString("(get-model)\n")
@@ -541,7 +629,7 @@ var declRe = regexp.MustCompile(`^\(declare-(?:const|fun) ([A-Za-z_$.#][A-Za-z_$
 // the local symbols it mentions (transitively) and every non-definitional
 // assumption that mentions a relevant local symbol or no local symbol at all.
 // Dropping hypotheses is always sound (it can only make a proof harder).
-func relevantFacts(facts []string, goal string) []string {
+func relevantFacts(facts []string, goal string, heapAware bool) []string {
 	type info struct {
 		syms []string
 		def  string // symbol defined by this fact ("" if not a definition)
@@ -566,8 +654,40 @@ func relevantFacts(facts []string, goal string) []string {
 			infos[i].def = m[1]
 			defOf[m[1]] = append(defOf[m[1]], i)
 		} else {
+			// heap and map array versions are connected to almost everything; they
+			// pull in only the facts that define them (frame axioms name the new
+			// version first) or state their well-formedness, never the other way round
+			var heapSyms, other []string
 			for _, sy := range infos[i].syms {
-				mention[sy] = append(mention[sy], i)
+				if isHeapSym(sy) {
+					heapSyms = append(heapSyms, sy)
+				} else {
+					other = append(other, sy)
+				}
+			}
+			if heapCOI && heapAware && strings.Contains(f, "(forall") && !strings.Contains(f, "(forall ((q_") && len(heapSyms) > 0 {
+				// (machine-generated frame and well-formedness axioms only: the
+				// quantifiers of contracts bind q_ names and stay reachable from
+				// every symbol they mention)
+				// a quantified fact over heaps is about the newest version of each
+				// array it mentions
+				newest := map[string]string{}
+				for _, h := range heapSyms {
+					b, v := heapBaseVer(h)
+					if cur, ok := newest[b]; ok {
+						if _, cv := heapBaseVer(cur); cv >= v {
+							continue
+						}
+					}
+					newest[b] = h
+				}
+				for _, h := range newest {
+					mention[h] = append(mention[h], i)
+				}
+			} else {
+				for _, sy := range infos[i].syms {
+					mention[sy] = append(mention[sy], i)
+				}
 			}
 		}
 	}
@@ -704,4 +824,72 @@ func tightFacts(facts []string, goal string) []string {
 		}
 	}
 	return out
+}
+
+func isHeapSym(sy string) bool {
+	for _, p := range []string{"H_", "Hin_", "Hre_", "Hcp_", "MD_", "MV_", "MC_"} {
+		if strings.HasPrefix(sy, p) {
+			return true
+		}
+	}
+	return false
+}
+
+func heapBaseVer(sy string) (string, int) {
+	k := strings.LastIndex(sy, "!")
+	if k < 0 {
+		return sy, -1
+	}
+	n, err := strconv.Atoi(sy[k+1:])
+	if err != nil {
+		return sy, -1
+	}
+	return sy[:k], n
+}
+
+var heapCOI = os.Getenv("GOVC_NOHEAPCOI") == ""
+
+// stripStrLenBounds replaces the conjuncts (< (str.len T) 2^62) of a quantified
+// well-formedness axiom by true. Goals that do not speak about string lengths
+// do not need them (values loaded from the heap carry their own ground bound),
+// and each instance costs the string solver a length term.
+func stripStrLenBounds(f string) string {
+	const pat = "(< (str.len "
+	const suf = " 4611686018427387904)"
+	if !strings.Contains(f, pat) {
+		return f
+	}
+	var b strings.Builder
+	i := 0
+	for {
+		j := strings.Index(f[i:], pat)
+		if j < 0 {
+			b.WriteString(f[i:])
+			break
+		}
+		j += i
+		d, k := 0, j
+		for ; k < len(f); k++ {
+			if f[k] == '(' {
+				d++
+			} else if f[k] == ')' {
+				d--
+				if d == 0 {
+					break
+				}
+			}
+		}
+		if k >= len(f) {
+			b.WriteString(f[i:])
+			break
+		}
+		if strings.HasSuffix(f[j:k+1], suf) {
+			b.WriteString(f[i:j])
+			b.WriteString("true")
+		} else {
+			b.WriteString(f[i : k+1])
+		}
+		i = k + 1
+	}
+	return b.String()
 }
